@@ -330,7 +330,12 @@ fn oracle(scn: &PubSub, g: &World, out: &Outcome, viol: &mut Vec<RViol>) {
             Some(t) => t,
             None => continue, // not adopted (C09's probe judges that)
         };
-        let bound = if t.op == Op::Ready { t.yielded_len.saturating_sub(1) } else { t.yielded_len };
+        // "from the point its registration was processed": the first thing the router does to the
+        // sink is the earliest moment at which it certainly knew it. What it took from publishers
+        // after that is owed; what it had taken before (e.g. a message it was holding when the
+        // subscriber arrived) may be delivered as well but is not owed - whether a router polls
+        // its sinks for readiness before or after taking a message is its own business.
+        let bound = t.yielded_len;
         // map accepted frames to positions in the consumption log
         let mut pos: Vec<Option<usize>> = Vec::with_capacity(s.accepted.len());
         for (_, f) in &s.accepted {
